@@ -160,7 +160,7 @@ class Kit:
         df.access_control_allow_origin_header = os.environ.get('ACCESS_CONTROL_ALLOW_ORIGIN_HEADER')
         os.environ.pop('WEB_MONITORING_APP_ENV', None)
 
-    def request(self, path_qs, headers=None, upstream=None, files=None, production=False, method='GET'):
+    def request(self, path_qs, headers=None, upstream=None, files=None, production=False, method='GET', body=None):
         """path_qs: already percent-encoded path + query string."""
         df = self.df
         obs = Obs()
@@ -174,7 +174,7 @@ class Kit:
 
         async def go():
             return await self.client.fetch('http://127.0.0.1:%d%s' % (self.port, path_qs), method=method,
-                                           headers=headers or {}, raise_error=False,
+                                           headers=headers or {}, raise_error=False, body=body, allow_nonstandard_methods=True,
                                            decompress_response=True, request_timeout=60)
         resp = self.loop.run_sync(go)
         # let stray coroutines (the other side's fetch after an early error) finish
